@@ -523,6 +523,8 @@ fn e_sanitize_html(p: &[Vec<u8>]) -> Ret {
                 n += 1;
                 if let Some(el) = node.as_element() {
                     n += el.attrs.borrow().len();
+                    // the typed view of the element and its attributes (ruma-html feature `matrix`)
+                    n += format!("{:?}", el.to_matrix()).len() & 1;
                 }
                 stack.extend(node.children());
             }
